@@ -195,6 +195,10 @@ class C04(PoolCheck):
             if sig is not None:
                 sig['channel_class'] = chan_class(src['ch'])
                 sig['call'] = 'first' if k == 0 or not case['reuse'] else 'reused-source'
+                if sig['channel_class'] == 'lxml':
+                    body = data[data.find(b'?>') + 2:]
+                    if b'<!--' in body or b'<?' in body:
+                        sig['comment_or_pi_in_body'] = True      # lxml keeps them as nodes with their own tails
                 violations.append({'signature': sig, 'detail': {
                     'entry': case['entry'], 'doc': doc.name, 'src': src, 'eps': case['eps'], 'k': k,
                     'reuse': case['reuse'], 'got': short(g), 'ref_errors': short(ref_errs, 600),
